@@ -1954,44 +1954,55 @@ pub(crate) mod convert {
             deps: &mut Vec<UnitSectionOffset>,
             expression: read::Expression<R>,
         ) -> ConvertResult<()> {
-            let mut ops = expression.operations(self.read_unit.encoding());
-            // Ignore parsing errors. They can be handled in the conversion step.
-            while let Ok(Some(op)) = ops.next() {
-                match op {
-                    read::Operation::Deref {
-                        base_type: offset, ..
-                    }
-                    | read::Operation::RegisterOffset {
-                        base_type: offset, ..
-                    }
-                    | read::Operation::TypedLiteral {
-                        base_type: offset, ..
-                    }
-                    | read::Operation::Convert {
-                        base_type: offset, ..
-                    }
-                    | read::Operation::Reinterpret {
-                        base_type: offset, ..
-                    }
-                    | read::Operation::ParameterRef { offset, .. }
-                    | read::Operation::Call {
-                        offset: read::DieReference::UnitRef(offset),
-                        ..
-                    } => {
-                        if offset.is_in_bounds(&self.read_unit) {
-                            deps.push(offset.to_unit_section_offset(&self.read_unit));
+            // Nested `DW_OP_entry_value` expressions are visited from a worklist.
+            let mut expressions = vec![expression];
+            while let Some(expression) = expressions.pop() {
+                let mut ops = expression.operations(self.read_unit.encoding());
+                // Ignore parsing errors. They can be handled in the conversion step.
+                while let Ok(Some(op)) = ops.next() {
+                    match op {
+                        read::Operation::Deref {
+                            base_type: offset, ..
                         }
+                        | read::Operation::RegisterOffset {
+                            base_type: offset, ..
+                        }
+                        | read::Operation::TypedLiteral {
+                            base_type: offset, ..
+                        }
+                        | read::Operation::Convert {
+                            base_type: offset, ..
+                        }
+                        | read::Operation::Reinterpret {
+                            base_type: offset, ..
+                        }
+                        | read::Operation::ParameterRef { offset, .. }
+                        | read::Operation::Call {
+                            offset: read::DieReference::UnitRef(offset),
+                            ..
+                        } => {
+                            if offset.is_in_bounds(&self.read_unit) {
+                                deps.push(offset.to_unit_section_offset(&self.read_unit));
+                            }
+                        }
+                        read::Operation::Call {
+                            offset: read::DieReference::DebugInfoRef(ref_offset),
+                            ..
+                        }
+                        | read::Operation::ImplicitPointer {
+                            value: ref_offset, ..
+                        }
+                        | read::Operation::VariableValue { offset: ref_offset } => {
+                            let offset = ref_offset
+                                .to_unit_section_offset(&self.read_unit)
+                                .ok_or(ConvertError::InvalidDebugInfoRef)?;
+                            deps.push(offset);
+                        }
+                        read::Operation::EntryValue { expression } => {
+                            expressions.push(read::Expression(expression));
+                        }
+                        _ => {}
                     }
-                    read::Operation::Call {
-                        offset: read::DieReference::DebugInfoRef(ref_offset),
-                        ..
-                    } => {
-                        let offset = ref_offset
-                            .to_unit_section_offset(&self.read_unit)
-                            .ok_or(ConvertError::InvalidDebugInfoRef)?;
-                        deps.push(offset);
-                    }
-                    _ => {}
                 }
             }
             Ok(())
